@@ -1139,6 +1139,7 @@ def mon_c10(tr: Trace, earlier_users: dict[tuple, set] | None = None) -> list[Vi
                 outcomes.append(o)
         if len(outcomes) > 1:
             out.append(Violation("C10/resumed_more_than_once", f"wait {key} of one invocation finished with {len(outcomes)} different outcomes: {outcomes}", case))
+            out[-1].meta = {"step": key[0], "uid": key[1]}  # type: ignore[attr-defined]
     # ... and the waiting step completes at most once per input event and attempt
     done_ok: dict[tuple, int] = {}
     wait_steps = {s["name"] for s in tr.spec["steps"] if any(a[0] == "wait" for a in s["script"])}
@@ -1154,6 +1155,7 @@ def mon_c10(tr: Trace, earlier_users: dict[tuple, set] | None = None) -> list[Vi
         wids = {k[3] for k in per_wait if k[0] == step and k[1] == uid}
         if n > 1 and wids and not any(len(users.get((step, w), ())) > 1 for w in wids):
             out.append(Violation("C10/resumed_more_than_once", f"step '{step}' completed {n} times for input event {uid} (attempt {rn}) with waits {sorted(map(str, wids))}", case))
+            out[-1].meta = {"step": step, "uid": uid}  # type: ignore[attr-defined]
     # reducer-level facts on the real ticks: waiter_event and timers only on creation; resolved waiters are left alone
     for c in _runner_calls(tr):
         if c.kind != "reduce" or c.after is None:
@@ -1217,10 +1219,17 @@ def c10_wait_rules(tr: Trace, earlier_users: dict[tuple, set] | None = None) -> 
     reg: dict[tuple, dict] = {}  # logical wait -> first registration seen in this trace
     pending: dict[tuple, dict] = {}
     said: set = set()
+    returned: dict[tuple, list] = {}
+    for w in wcs:
+        if w["outcome"] in ("got", "timeout"):
+            returned.setdefault((w["step"], w["uid"], w["label"]), []).append(w)
     for idx, c in enumerate(tr.calls):
         if c.caller not in ("run", "_process_tick") or c.kind != "reduce" or c.after is None:
             continue
         tk = c.tick
+        # a wait that has returned / raised in the meantime is over (whatever it returned is judged by the other rules)
+        for lw in [lw for lw in pending if any(x["at_call"] <= idx and x["at_call"] > reg[lw]["idx"] for x in returned.get(lw, ()))]:
+            del pending[lw]
         if isinstance(tk, T.TickStepResult):
             uid = getattr(tk.event, "uid", None)
             for r in tk.result:
@@ -1287,6 +1296,7 @@ def c10_wait_rules(tr: Trace, earlier_users: dict[tuple, set] | None = None) -> 
                                  f"step {w['step']}, input event {w['uid']}: wait_for_event(T{w['ty']}, requirements k={w['k']!r}) [{w['label']}] was registered at tick "
                                  f"{rs[-1]['idx']} with waiter_event uid {wuid}; " + (f"that event was published {n} times" if len(rs) == 1 else
                                  f"{len(rs)} waits announce themselves with that event ({[(r['w']['step'], r['w']['label']) for r in rs]}), it was published {n} times"), case))
+            out[-1].meta = {"step": w["step"], "uid": w["uid"]}  # type: ignore[attr-defined]
     for w in wcs:
         w.pop("_reg", None)
     return out
